@@ -5925,3 +5925,124 @@ def cb2(m, run, rule='CB2.container-box-follows-its-elements'):
             raise AnalysisError('%s: interpreter met an unsupported construct: %s' % (key, ex))
         g = m.lookup(('multi', cname + 'Container'), 'bbox', 'getters')
         run.ob(rule, key, why is None, 'every read gives the box of the current elements' if why is None else why, 'geomdl/multi.py:%s in %s' % (g.node.lineno if g else '?', g.key if g else 'bbox'))
+
+
+# ====================================================================================== C19: equality on pairs that differ in one component
+def eq2(m, run, rule='EQ2.equality-on-pairs-differing-in-one-component'):
+    """EQ2: SplineGeometry.__eq__ / __ne__ interpreted on pairs of abstract shapes (curve, surface, volume; B-spline and rational) whose
+    knots and homogeneous coordinates are order tokens (two tokens whose ranks differ by less than the round-off threshold stand for
+    values within every tolerance, any other two for values further apart than the tolerance): a shape equals itself and a copy of
+    itself, also when every value is moved by less than the comparison tolerance; it is unequal - in both orders, and != is the negation - to a shape that
+    differs in exactly one of: parametric kind, rationality, one degree, one size (with consistent lists), one knot, the length of a knot
+    vector, one coordinate of one control point (the weight slot of a rational shape included), the number of control points of a curve; and to
+    objects that are not shapes"""
+    fe = m.lookup(('BSpline', 'Curve'), '__eq__', 'methods')
+    fn = m.lookup(('BSpline', 'Curve'), '__ne__', 'methods')
+    if fe is None or fn is None:
+        raise AnalysisError('SplineGeometry.__eq__ / __ne__ not found')
+
+    def shape(mod, cname, degs, sizes):
+        pdim = len(degs)
+        total = 1
+        for s_ in sizes:
+            total *= s_
+        hd = 4 if mod == 'NURBS' else 3
+        kv = [[Ord(1000 * d + r) for r in [0] * (p + 1) + list(range(1, n - p)) + [n - p] * (p + 1)] for d, (p, n) in enumerate(zip(degs, sizes))]
+        cp = [[Ord(5000 + 10 * i + c) for c in range(hd)] for i in range(total)]
+        return Bag((mod, cname), _pdim=pdim, _rational=(mod == 'NURBS'), _degree=list(degs), _knot_vector=kv, _control_points=cp, _control_points_size=list(sizes),
+                   _precision=18, _dimension=hd, _kv_normalize=True, _delta=[0.1] * pdim, _cache={}, _name='s', _id=0, _opt_data={}, _array_type=None, _eval_points=[],
+                   _bounding_box=[], _geometry_type='spline', _evaluator=None, _control_points2D=[], _trims=[])
+
+    def clone(b):
+        c = Bag(b._cls)
+        for k, v in b._a.items():
+            c._a[k] = deepcopy_plain(v) if not isinstance(v, list) else [list(x) if isinstance(x, list) else x for x in v]
+        return c
+    kinds = (('Curve', (2,), (4,)), ('Surface', (2, 1), (3, 4)), ('Volume', (1, 2, 1), (2, 3, 2)))
+    bad, cnt = [], 0
+
+    def ask(a, b):
+        sk = SK(m, dict(STD_ABSTRACTED))
+        e = sk.call(fe, [a, b], {})
+        sk2 = SK(m, dict(STD_ABSTRACTED))
+        ne = sk2.call(fn, [a, b], {})
+        return e, ne
+    for mod in ('BSpline', 'NURBS'):
+        for cname, degs, sizes in kinds:
+            base = shape(mod, cname, degs, sizes)
+            pdim = len(degs)
+            variants = [('itself', base, True), ('a copy', clone(base), True)]
+            near = clone(base)
+            near._a['_knot_vector'] = [[Ord(k.rank + 1e-6) for k in kv] for kv in near._a['_knot_vector']]
+            near._a['_control_points'] = [[Ord(x.rank - 1e-6) for x in r] for r in near._a['_control_points']]
+            variants.append(('a copy with every knot and coordinate moved by less than the tolerance', near, True))
+            for d in range(pdim):
+                v = clone(base)
+                v._a['_degree'][d] += 1
+                variants.append(('a copy whose degree in direction %d is one higher' % d, v, False))
+                v = clone(base)
+                kvd = v._a['_knot_vector'][d]
+                kvd[len(kvd) // 2] = Ord(kvd[len(kvd) // 2].rank + 0.5)
+                variants.append(('a copy with one knot of direction %d moved' % d, v, False))
+                v = clone(base)
+                v._a['_knot_vector'][d] = v._a['_knot_vector'][d] + [v._a['_knot_vector'][d][-1]]
+                variants.append(('a copy whose knot vector of direction %d has one more knot' % d, v, False))
+                v = clone(base)
+                kvd = v._a['_knot_vector'][d]
+                kvd[-1] = Ord(kvd[-1].rank + 0.5)
+                variants.append(('a copy with the last knot of direction %d moved' % d, v, False))
+            if pdim > 1:
+                v = clone(base)
+                s_ = v._a['_control_points_size']
+                s_[0], s_[1] = s_[1], s_[0]
+                variants.append(('a copy with the sizes of the first two directions exchanged (same total)', v, False))
+            hd = 4 if mod == 'NURBS' else 3
+            for (i, c) in ((0, 0), (len(base._a['_control_points']) - 1, hd - 1), (len(base._a['_control_points']) // 2, 1)):
+                v = clone(base)
+                v._a['_control_points'][i][c] = Ord(v._a['_control_points'][i][c].rank + 0.5)
+                variants.append(('a copy with coordinate %d of control point %d moved%s' % (c, i, ' (the weight)' if mod == 'NURBS' and c == hd - 1 else ''), v, False))
+            if pdim == 1:
+                v = clone(base)
+                v._a['_control_points'] = v._a['_control_points'][:-1]
+                v._a['_control_points_size'][0] -= 1
+                v._a['_knot_vector'][0] = v._a['_knot_vector'][0][:-1]
+                variants.append(('a curve with one control point (and knot) less', v, False))
+            other_mod = 'NURBS' if mod == 'BSpline' else 'BSpline'
+            v = clone(base)
+            v.__dict__['_cls'] = (other_mod, cname)
+            v._a['_rational'] = not base._a['_rational']
+            variants.append(('the same data as a %s shape' % ('rational' if other_mod == 'NURBS' else 'non-rational'), v, False))
+            for oc, od, os_ in kinds:
+                if oc != cname:
+                    variants.append(('a %s' % oc.lower(), shape(mod, oc, od, os_), False))
+            if pdim < 3:
+                # a shape of the next parametric kind that agrees with this one in all its directions and in its first control points
+                nxt = 'Surface' if pdim == 1 else 'Volume'
+                v = shape(mod, nxt, tuple(degs) + (1,), tuple(sizes) + (2,))
+                for i_, row in enumerate(base._a['_control_points']):
+                    v._a['_control_points'][i_] = list(row)
+                variants.append(('a %s that agrees with it in the first %d direction(s) and the first control points' % (nxt.lower(), pdim), v, False))
+            variants.append(('the number 5', 5, False))
+            variants.append(('None', None, False))
+            variants.append(('an object without the attributes of a shape', Bag('rec:other', name='x'), False))
+            for what, other, want in variants:
+                # (the moved copy is compared at a precision of 6 digits on both sides: the tolerance 10^-6 is above the displacement)
+                lhs = base
+                if other is near:
+                    lhs = clone(base)
+                    lhs._a['_precision'] = 6
+                    near._a['_precision'] = 6
+                for a, b, order in ((lhs, other, 'shape == other'), (other, lhs, 'other == shape')):
+                    if not isinstance(a, Bag) or not isinstance(a._cls, tuple):
+                        continue
+                    cnt += 1
+                    try:
+                        e, ne = ask(a, b)
+                        if e is not want or ne is not (not want):
+                            bad.append(('%s.%s against %s (%s)' % (mod, cname, what, order), '== gives %r and != gives %r, expected %r and %r' % (e, ne, want, not want)))
+                    except Violation as v_:
+                        bad.append(('%s.%s against %s (%s)' % (mod, cname, what, order), '%s %s' % (v_.msg, v_.where())))
+                    except Unsupported as ex:
+                        raise AnalysisError('%s: interpreter met an unsupported construct: %s (%s.%s against %s)' % (fe.key, ex, mod, cname, what))
+    run.ob(rule, '%s :: %d ordered pairs' % (fe.key, cnt), not bad, 'equal exactly when no component differs by more than the tolerance; symmetric; != is the negation' if not bad else
+           '%s: %s   [%d of %d pairs]' % (bad[0][0], bad[0][1], len(bad), cnt), 'geomdl/abstract.py:%d in %s' % (fe.node.lineno, fe.key))
